@@ -1,1 +1,2 @@
 pub mod rules;
+pub mod san;
